@@ -168,6 +168,20 @@ class Gen:
         if r.random() < 0.05:
             return self.data_apply()
         if r.random() < 0.03:
+            # equality of collections whose items differ in type or value at some position (the comparison works
+            # through a list of pending item pairs on the operand stack and must leave exactly one boolean)
+            items = ["1", "2", "3", ":a", ":b", "()", '"s"', "1.5", "(1 2)", "(:k = 1)", "$"]
+            n = r.randint(1, 4)
+            a = [r.choice(items) for _ in range(n)]
+            b = list(a)
+            for _ in range(r.choice([0, 1, 1, 2])):
+                b[r.randrange(len(b))] = r.choice(items)
+            if r.random() < 0.2:
+                b = b[:-1] if len(b) > 1 else b + ["9"]
+            form = r.choice(["(%s) %s (%s)", "(:k = (%s)) %s (:k = (%s))", "5 + ((%s) %s (%s) ?> 1 |> 2)", "((%s) <> (7,)) %s ((%s) <> (7,))"])
+            sep = r.choice([" ", ", "])
+            return form % (sep.join(a) + ("," if n == 1 else ""), r.choice(["==", "!="]), sep.join(b) + ("," if len(b) == 1 else ""))
+        if r.random() < 0.03:
             # re-apply / self reference reached through the operands of `&&` / `||` (the containing-expression
             # bookkeeping of the logical operators), always guarded so that the loop ends
             n = r.choice(["1", "2", "3"])
@@ -270,6 +284,7 @@ FIXED_SOURCES = [
     "(:a = (:b = 5,),) <~ :a.b", "(:a = (:b = 5,),) <~ :a.c", "(:a = (:b = 5,),) <~ :x.b", "1, ((:a = (:b = 5,),) <~ :a.c), 3",
     "{ [(:a = (:b = 5,),) <~ :a.c] $ < 3 ?> ^~ ($ + 1) |> $ } <~ 0", "(1 2 3) <~ 7", "(1 2 3) <~ :b.0", "\"abc\" <~ 5", "(1..5) <~ 9",
     "1 (5) [2] 3", "1, (5) [2], 3", "{5} [2] 3", "7 + (1 (5) [2] 3)",
+    "(1 2 3) == (1 2 :a)", "(:k = 1) == (:k = ())", "(1 2 3) != (1 :b 3)", "(1 2 3) == (:a 2 3)", "((1 2) 3) == ((1 :a) 3)",
     "$ == 3 || ^~ 3", "$ != 3 && ^~ 3", "$? && {}", "() || {}", "{ $ == 2 || ^~ 2 } <~ 0", "$ == 3 || (1 && ^~ 3)",
 ]
 
